@@ -950,18 +950,6 @@ fn contours_json(r: &[Vec<P>]) -> Value {
     json!(r.iter().map(|c| c.iter().map(|p| json!([p.0, p.1, p.2])).collect::<Vec<_>>()).collect::<Vec<_>>())
 }
 
-/// One compile on a thread of its own: std's per-thread hash keys are drawn afresh from the (shimmed)
-/// getrandom, so the result is a function of (source, options, VERIF_HASH_SEED) and does not depend on
-/// what the worker thread compiled before. (fontc's glyph sources are HashMaps; C12 found a build whose
-/// success depends on their iteration order.)
-fn compile_fresh(path: &std::path::Path, o: &Opts) -> Result<Vec<u8>, fcx::Failure> {
-    std::thread::scope(|s| {
-        s.spawn(|| fcx::compile(path, o, None))
-            .join()
-            .unwrap_or_else(|_| Err(fcx::Failure::Panic("compile thread died".into())))
-    })
-}
-
 /// Compile `d` under every configuration of `cfgs` (index 0 must be the reference) and judge.
 /// `skrifa_cfgs`: configurations whose fonts are also run through the skrifa cross-check.
 fn evaluate(d: &Design, cfgs: &[Opts], skrifa_cfgs: &[usize]) -> EvalOut {
@@ -976,7 +964,7 @@ fn evaluate(d: &Design, cfgs: &[Opts], skrifa_cfgs: &[usize]) -> EvalOut {
             return out;
         }
     };
-    let fonts: Vec<Result<Vec<u8>, fcx::Failure>> = cfgs.iter().map(|o| compile_fresh(&path, o)).collect();
+    let fonts: Vec<Result<Vec<u8>, fcx::Failure>> = cfgs.iter().map(|o| fcx::compile(&path, o, None)).collect();
     st.compiles = cfgs.len() as u64;
     drop(sc);
 
@@ -1383,6 +1371,29 @@ fn replay(path: &std::path::Path) -> ! {
             println!("source: {}", c.label());
         }
     }
+    if v["key"].as_str().is_some_and(|k| k.starts_with("build-fails")) {
+        // whether this build fails depends on HashMap iteration order inside the compiler: every
+        // compile on this thread sees other hash keys, so try a number of them
+        let sc = vcore::Scratch::new("c12-replay");
+        let path = d
+            .write_designspace(sc.path())
+            .unwrap_or_else(|e| vcore::machinery_error(&format!("cannot write the source: {e}")));
+        let mut fails = 0;
+        let mut builds = 0;
+        let mut msg = String::new();
+        for i in 0..64 {
+            match fcx::compile(&path, if i % 2 == 0 { &ox } else { &o0 }, None) {
+                Ok(_) => builds += 1,
+                Err(e) => {
+                    fails += 1;
+                    msg = format!("{e:?}");
+                }
+            }
+        }
+        println!("64 builds under varying hash keys: {builds} succeed, {fails} fail {msg}");
+        vcore::cleanup_scratch();
+        std::process::exit(if fails > 0 { 1 } else { 0 });
+    }
     let out = evaluate(&d, &[o0, ox], &[]);
     for m in &out.machinery {
         println!("machinery: {m}");
@@ -1404,35 +1415,43 @@ fn replay(path: &std::path::Path) -> ! {
 
 // ------------------------------------------------------------------------------------ main
 
+const LANES: usize = 32;
+
+/// counting semaphore: how many lanes may work at a time
+struct Permits {
+    free: std::sync::Mutex<usize>,
+    cv: std::sync::Condvar,
+}
+struct Permit<'a>(&'a Permits);
+impl Permits {
+    fn new(n: usize) -> Self {
+        Permits { free: std::sync::Mutex::new(n.max(1)), cv: std::sync::Condvar::new() }
+    }
+    fn acquire(&self) -> Permit<'_> {
+        let mut g = self.free.lock().unwrap();
+        while *g == 0 {
+            g = self.cv.wait(g).unwrap();
+        }
+        *g -= 1;
+        Permit(self)
+    }
+}
+impl Drop for Permit<'_> {
+    fn drop(&mut self) {
+        *self.0.free.lock().unwrap() += 1;
+        self.0.cv.notify_one();
+    }
+}
+
 fn main() {
     let args = vcore::parse_args();
-    // fixed hash keys: a verdict is a function of (case, seed), see `compile_fresh`
+    // fixed hash keys: the sweep's verdicts are a function of (tier, seed), see the lanes below
     vcore::ensure_shim(args.seed);
     std::panic::set_hook(Box::new(|info| {
         if info.location().is_some_and(|l| l.file().ends_with("c12.rs")) {
             eprintln!("harness panic: {info}");
         }
     }));
-    if std::env::var("C12_BENCH").is_ok() {
-        let (cases, _) = spaces(Tier::Quick);
-        let d = build_design(&cases[300]);
-        let sc = vcore::Scratch::new("c12b");
-        let path = d.write_designspace(sc.path()).unwrap();
-        let o = Opts::default();
-        for round in 0..2 {
-            let t = std::time::Instant::now();
-            for _ in 0..50 {
-                let _ = fcx::compile(&path, &o, None);
-            }
-            eprintln!("round {round}: 50 inline compiles {:?}", t.elapsed());
-            let t = std::time::Instant::now();
-            for _ in 0..50 {
-                let _ = compile_fresh(&path, &o);
-            }
-            eprintln!("round {round}: 50 fresh-thread compiles {:?}", t.elapsed());
-        }
-        std::process::exit(0);
-    }
     if let Some(p) = &args.replay {
         replay(p);
     }
@@ -1441,17 +1460,23 @@ fn main() {
     let cfgs = all_configs();
     let only: Option<usize> = std::env::var("C12_LIMIT").ok().and_then(|s| s.parse().ok());
     let total_cases = only.map(|n| n.min(cases.len())).unwrap_or(cases.len());
-    let chunk = 16usize;
-    let nchunks = total_cases.div_ceil(chunk);
     let skrifa_every = args.tier.pick(37usize, 211usize);
-    let results = vcore::par_for(nchunks, vcore::ncores(), |ci| {
+    // A fixed number of lanes, each a thread of its own working through a fixed subsequence of the case
+    // list: with the shimmed getrandom the hash keys every compile sees are then a function of
+    // (tier, seed) alone, so verdicts repeat exactly although fontc's behaviour on some of these sources
+    // depends on HashMap iteration order (see `build-fails`). A fresh thread per compile would be cleaner
+    // but costs ~30 ms of per-thread initialisation inside the compiler. VERIF_JOBS bounds how many lanes
+    // run at a time.
+    let permits = Permits::new(vcore::ncores());
+    let lane_fn = |lane: usize| {
         let mut st = Stats::default();
         let mut viol: Vec<(String, String, Value)> = vec![];
         let mut machinery: Vec<String> = vec![];
         let mut samples: Vec<Value> = vec![];
         let mut nontrivial = 0u64;
         let mut seen = BTreeSet::new();
-        for idx in ci * chunk..((ci + 1) * chunk).min(total_cases) {
+        for idx in (lane..total_cases).step_by(LANES) {
+            let _permit = permits.acquire();
             let case = &cases[idx];
             let d = build_design(case);
             let sk: Vec<usize> = if idx % skrifa_every == 0 { vec![0, (idx / skrifa_every) % 16] } else { vec![] };
@@ -1471,7 +1496,7 @@ fn main() {
                     ("advance-differs" | "phantom-advance-differs" | "source-advance-differs", _) => {
                         format!("{}:{cname}", x.class)
                     }
-                    ("build-fails", _) => format!("build-fails:{}:{cname}", slug(&x.what)),
+                    ("build-fails", _) => format!("build-fails:{}", slug(&x.what)),
                     (_, Some(gi)) => {
                         format!("{}:{cname}:{}:{}", x.class, case.transform_label(gi), case.kind_label(gi))
                     }
@@ -1496,6 +1521,13 @@ fn main() {
             }
         }
         (st, viol, machinery, samples, nontrivial)
+    };
+    let results: Vec<_> = std::thread::scope(|s| {
+        let lane_fn = &lane_fn;
+        let hs: Vec<_> = (0..LANES).map(|lane| s.spawn(move || lane_fn(lane))).collect();
+        hs.into_iter()
+            .map(|h| h.join().unwrap_or_else(|_| vcore::machinery_error("a lane of the sweep panicked")))
+            .collect()
     });
     let mut total = Stats::default();
     let mut samples: Vec<Value> = vec![];
